@@ -563,6 +563,10 @@ fn exec(
             let a = var(vars, *h);
             o_arr(a, out);
             o_grad(a, out);
+            // a stored gradient must be a plain untracked array (C09): reported as an extra item
+            if let Some(g) = &*a.gradient() {
+                item(8, &[is_tracked(g) as usize], &[], out);
+            }
         }
         Instr::SumAll(h) => {
             let x = var(vars, *h).sum_all();
